@@ -1,12 +1,27 @@
 (* C12 driver: runs the extracted verified checker is_tree_with_leaves (Graph/Trees.v) on graphs given one per line.
      TREE m u1 v1 ... um vm k t1 ... tk      -> TREE ok connected acyclic leaves_ok nleaves l1 ...
      OPS  (model self-test, used for the evidence samples)
-       OPS m edges k T nops (C j1 j2 | M j1 j2 | S j j' nb b* | K mc cands)*  -> OPS ok_all tree_after *)
+       OPS m edges k T nops (C j1 j2 | M j1 j2 | S j j' nb b* | K mc cands)*  -> OPS ok_all tree_after
+   Replay of a hook-H2 op log on the extracted segment-level model (Avoid/HyperSegModel.v); one answer line per command:
+     SEG m edges k T        state := (g, T)            -> SEG tree_with_leaves connected acyclic leaves_ok
+     SETT k T               T := ...                   -> SETT
+     OP C a b | OP S a b n | OP F s t u | OP FD s t u | OP B a b
+                            g := sop_graph g op when defined (also when the guard fails, to keep following the log),
+                            T := sop_leaves T op       -> OP defined guard tree_after
+     ADJ n k n1 .. nk       neighbours of n (multiset) -> ADJ equal k' m1 .. mk'
+     SAME a b               same component of g        -> SAME 0|1
+     END m edges            compare g with the logged graph as multisets of unordered pairs
+                                                       -> END equal tree_with_leaves tree k T...
+     SMOOTH j J             connector-level reading    -> SMOOTH m u1 v1 ... *)
 open C12_model
 
 let rec nat_of_int n = if n <= 0 then O else S (nat_of_int (n - 1))
 let rec int_of_nat = function O -> 0 | S n -> 1 + int_of_nat n
 let bstr b = if b then "1" else "0"
+
+let norm (a, b) = let a = int_of_nat a and b = int_of_nat b in if a <= b then (a, b) else (b, a)
+let sorted_edges g = List.sort compare (List.map norm g)
+let cur_g = ref [] and cur_t = ref []
 
 let () =
   let ic = open_in Sys.argv.(1) in
@@ -43,6 +58,52 @@ let () =
             let ok = ref true and cur = ref g in
             List.iter (fun o -> if not (hop_ok t !cur o) then ok := false; cur := run_hops t !cur [o]) ops;
             Printf.printf "OPS %s %s\n" (bstr !ok) (bstr (is_tree_with_leaves !cur t))
+        | "SEG" ->
+            let g = read_edges () in
+            let t = read_list () in
+            cur_g := g; cur_t := t;
+            Printf.printf "SEG %s %s %s %s\n" (bstr (is_tree_with_leaves g t)) (bstr (connectedb g)) (bstr (acyclicb g)) (bstr (leavesb g t))
+        | "SETT" -> cur_t := read_list (); print_string "SETT\n"
+        | "OP" ->
+            let k = w.(!pos) in incr pos;
+            let a = nat_of_int (next ()) in let b = nat_of_int (next ()) in
+            let o = (match k with
+              | "C" -> SContract (a, b)
+              | "S" -> let n = nat_of_int (next ()) in SSubdivide (a, b, n)
+              | "F" -> let u = nat_of_int (next ()) in SFold (a, b, u)
+              | "FD" -> let u = nat_of_int (next ()) in SFoldDrop (a, b, u)
+              | "B" -> SBridge (a, b)
+              | s -> failwith ("unknown op " ^ s)) in
+            let safe = sop_safe !cur_g o in
+            (match sop_graph !cur_g o with
+             | None -> Printf.printf "OP 0 %s %s\n" (bstr safe) (bstr (is_treeb !cur_g))
+             | Some g' ->
+                 (* with the guard: exactly apply_sop; without: the graph step alone, so that the replay can go on *)
+                 (match apply_sop (!cur_g, !cur_t) o with
+                  | Some (g2, t2) -> cur_g := g2; cur_t := t2
+                  | None -> cur_t := sop_leaves !cur_t o; cur_g := g');
+                 Printf.printf "OP 1 %s %s\n" (bstr safe) (bstr (is_treeb !cur_g)))
+        | "ADJ" ->
+            let x = next () in
+            let want = List.sort compare (List.map int_of_nat (read_list ())) in
+            let have = List.sort compare (List.concat (List.map (fun (a, b) ->
+              let a = int_of_nat a and b = int_of_nat b in
+              (if a = x then [b] else []) @ (if b = x then [a] else [])) !cur_g)) in
+            Printf.printf "ADJ %s %d" (bstr (want = have)) (List.length have);
+            List.iter (fun y -> Printf.printf " %d" y) have; print_newline ()
+        | "SAME" ->
+            let a = nat_of_int (next ()) in let b = nat_of_int (next ()) in
+            Printf.printf "SAME %s\n" (bstr (uf_same (comp_uf !cur_g) a b))
+        | "END" ->
+            let g = read_edges () in
+            Printf.printf "END %s %s %s %d" (bstr (sorted_edges g = sorted_edges !cur_g)) (bstr (is_tree_with_leaves !cur_g !cur_t))
+              (bstr (is_treeb !cur_g)) (List.length !cur_t);
+            List.iter (fun y -> Printf.printf " %d" (int_of_nat y)) !cur_t; print_newline ()
+        | "SMOOTH" ->
+            let j = read_list () in
+            let s = smooth j !cur_g in
+            Printf.printf "SMOOTH %d" (List.length s);
+            List.iter (fun (a, b) -> Printf.printf " %d %d" (int_of_nat a) (int_of_nat b)) s; print_newline ()
         | s -> failwith ("unknown command " ^ s)
       end
     done
